@@ -299,12 +299,33 @@ func c01esc(c *an.Ctx) {
 	}
 	info := f.Info()
 	param := an.Param(f, 0)
+	// locals that hold the Set's escaper
+	escLocals := map[string]bool{}
+	an.InspectOwn(f, func(n ast.Node) bool {
+		an.Assigns(n, func(lhs, rhs ast.Expr, _ token.Token) {
+			if id, ok := an.Unparen(lhs).(*ast.Ident); ok && rhs != nil && p.FieldKey(info, rhs) == "Set.escapee" {
+				escLocals[an.RoleOf(an.ObjOf(info, id))] = true
+			}
+		})
+		return true
+	})
 	hooks := an.Hooks{Call: func(x *an.Explorer, call *ast.CallExpr, st *an.State) {
 		name := an.CalleeName(info, call)
 		isRaw := name == "(io.Writer).Write" && p.FieldKey(info, an.Receiver(call)) == "escapeeWriter.Writer"
 		isEsc := false
-		if strings.HasPrefix(name, "value:") && p.FieldKey(info, call.Fun) == "Set.escapee" {
-			isEsc = true
+		if strings.HasPrefix(name, "value:") {
+			if p.FieldKey(info, call.Fun) == "Set.escapee" {
+				isEsc = true
+			} else if id, ok := an.Unparen(call.Fun).(*ast.Ident); ok {
+				// the escaper read into a local first
+				defs := an.LocalDefs(f, an.ObjOf(info, id))
+				isEsc = len(defs) > 0
+				for _, d := range defs {
+					if d == nil || p.FieldKey(info, d) != "Set.escapee" {
+						isEsc = false
+					}
+				}
+			}
 		}
 		if !isRaw && !isEsc {
 			return
@@ -326,9 +347,38 @@ func c01esc(c *an.Ctx) {
 				if v && (strings.HasSuffix(pk, ".escapee == nil") || strings.HasPrefix(pk, "nil == ") && strings.HasSuffix(pk, ".escapee")) {
 					nilEsc = true
 				}
+				for l := range escLocals {
+					if v && (pk == l+" == nil" || pk == "nil == "+l) {
+						nilEsc = true
+					}
+				}
+			}
+			if st.Get("escNil") == "1" {
+				nilEsc = true // established by a test of a local copy whose scope has ended since
 			}
 			if !nilEsc {
 				st.Set("rawWithEscaper", "1")
+			}
+		}
+	}, Branch: func(x *an.Explorer, cond ast.Expr, val bool, st *an.State) {
+		b, ok := an.Unparen(cond).(*ast.BinaryExpr)
+		if !ok || (b.Op != token.EQL && b.Op != token.NEQ) {
+			return
+		}
+		for _, pr := range [][2]ast.Expr{{b.X, b.Y}, {b.Y, b.X}} {
+			if tv, ok := info.Types[pr[1]]; !ok || !tv.IsNil() {
+				continue
+			}
+			isEscaper := p.FieldKey(info, pr[0]) == "Set.escapee"
+			if id, ok := an.Unparen(pr[0]).(*ast.Ident); ok && escLocals[an.RoleOf(an.ObjOf(info, id))] {
+				isEscaper = true
+			}
+			if isEscaper {
+				if val == (b.Op == token.EQL) {
+					st.Set("escNil", "1")
+				} else {
+					st.Set("escNil", "0")
+				}
 			}
 		}
 	}}
